@@ -31,6 +31,7 @@ class FeatureChecker : public DocumentVisitor, public AbstractStatementVisitor
 {
 private:
     SupportedMethods supported_methods{};
+    std::set<const function_t*> visited_functions{};  ///< bodies already looked at (once is enough)
 
 public:
     explicit FeatureChecker(Document& document);
